@@ -9,7 +9,7 @@
 From Coq Require Import List Arith ZArith QArith Reals Bool Lia.
 From TLV Require Import Base.Shape Base.Tensor Base.RSum Model.Structure Proofs.StructureProofs Proofs.StructureProofs2
   Proofs.StructureProofs3 Proofs.StructureProofs4 Proofs.StructureProofsQ Proofs.StructureProofsR Proofs.StructureNormR
-  Base.BigSum Proofs.StructureConj Proofs.StructureConjR Proofs.StructureConjCompose Model.StructureHooi Proofs.StructureProofs5 Proofs.StructureHooiProofs Proofs.StructureHooiConj.
+  Base.BigSum Proofs.StructureConj Proofs.StructureConjR Proofs.StructureConjCompose Proofs.StructureTTConj Model.StructureWeights Proofs.StructureWeightsProofs Model.StructureHooi Proofs.StructureProofs5 Proofs.StructureHooiProofs Proofs.StructureHooiConj.
 From TLV Require Import Model.StructureQ.
 Import ListNotations.
 Local Open Scope nat_scope.
@@ -289,6 +289,22 @@ Theorem C08_cp_run_keeps_weights : forall (W F : Type) (upd : W -> F -> F) (norm
   fst (cp_run (W * F) (sweep_pair W F upd) normalise false tol_set ik all_fixed n decisions (w0, f0)) = w0.
 Proof. exact cp_run_keeps_weights. Qed.
 Print Assumptions C08_cp_run_keeps_weights.
+(* "otherwise the CP weights are all ones" as a statement about a PROGRAM: the harness extracts from the current source of each CP driver (ast) every
+   statement that assigns a weights-valued variable (copy, line-search extrapolation a + (b - a) * jump, ones, cp_normalize with / without the
+   `if normalize_factors` guard) and Coq evaluates wprog_ok on it.  For every program satisfying wprog_ok, EVERY execution (any sequence of its
+   statements, whatever the control flow, any jump values) with normalize_factors = False that starts from weights all ones ends with every weights-valued
+   variable all ones -- over any commutative ring.  (That initialize_cp delivers weights all ones is C08_init_user_weights_absorbed + the per-run predicate.) *)
+Theorem C08_wprog_unit_weights : forall (K : Type) (k0 k1 : K) (kadd kmul ksub : K -> K -> K) (kopp : K -> K),
+  ring_theory k0 k1 kadd kmul ksub kopp eq -> forall (normalise : (nat -> K) -> nat -> K) prog, wprog_ok prog = true ->
+  forall trace st st', (forall s j, In (s, j) trace -> In s prog) -> all_ones K k1 st ->
+  wexec K k1 kadd kmul ksub normalise false trace st = Some st' -> all_ones K k1 st'.
+Proof. exact wprog_unit_weights. Qed.
+Print Assumptions C08_wprog_unit_weights.
+Example C08_wprog_sharp_ex : wprog_ok [WNormalize false] = false /\
+  (match wexec Z 1%Z Z.add Z.mul Z.sub (fun w r => (2 * w r)%Z) false [(WNormalize false, 0%Z)] (fun v => if v =? 0 then Some (fun _ => 1%Z) else None) with
+   | Some st => match st 0 with Some w => w 0 | None => 0%Z end | None => 0%Z end = 2%Z) /\
+  wprog_ok [WAssign 1 (WVar 0); WAssign 2 (WAffine 1 0); WAssign 0 (WVar 2); WNormalize true] = true.
+Proof. exact wprog_sharp. Qed.
 (* non-vacuity: a state space on which a sweep really destroys normalisation *)
 Example C08_cp_normalised_ex : forall tol_set ik all_fixed n decisions, ghost_run true tol_set ik all_fixed n decisions = true.
 Proof. exact ghost_normalised. Qed.
@@ -485,6 +501,50 @@ Theorem C08_tr_first_core_unitary : forall (K : Type) (k0 k1 : K) (kadd kmul ksu
   bigsum K k0 kadd I (fun i => kmul (conj (ktr_first_core K r1 U a i b)) (ktr_first_core K r1 U a' i b')) = kmul (kdelta K k0 k1 a a') (kdelta K k0 k1 b b').
 Proof. exact tr_first_core_unitary. Qed.
 Print Assumptions C08_tr_first_core_unitary.
+
+(* ---- the loops of tensor_train / tensor_ring / tensor_train_matrix on concrete data over a ring with conjugation (Proofs/StructureTTConj.v): the SVD
+   is a pair of arbitrary functions (U, S V) with the contract "the first r columns of U are orthonormal"; everything else is the code's arithmetic.
+   ONE theorem per decomposition about the loop model; the model's SVD calls (sizes, requested ranks) are compared with the implementation's on every run. *)
+(* tensor_train: the core shapes are those of the shape model (hence one core per mode, boundary ranks 1, TT ranks = validate_tt_rank without
+   over-parametrisation) and every core but the last is left-unitary *)
+Theorem C08_tensor_train_result_canonical : forall (K : Type) (k0 k1 : K) (kadd kmul ksub : K -> K -> K) (kopp : K -> K),
+  ring_theory k0 k1 kadd kmul ksub kopp eq -> forall (conj : K -> K) (svdU svdSV : nat -> nat -> (nat -> nat -> K) -> nat -> nat -> nat -> K),
+  (forall n_row n_col M r, r <= Nat.min n_row n_col -> unitary_cols K k0 k1 kadd kmul conj n_row r (svdU n_row n_col M r)) ->
+  forall shape spec c X cores, tensor_train_K K svdU svdSV shape spec c X = Ok cores ->
+  tensor_train shape spec c = Ok (map (cshape K) cores) /\
+  (let rs := core_ranks (map (cshape K) cores) in
+   length cores = length shape /\ core_modes (map (cshape K) cores) = shape /\ hd 0 rs = 1 /\ last rs 0 = 1 /\
+   (forall r, validate_tt_rank shape spec false RRound false c = Ok r -> rs = r)) /\
+  (forall k, S k < length cores -> left_unitary K k0 k1 kadd kmul conj (nth k cores (mkCore K 0 0 0 (fun _ _ _ => k0)))).
+Proof. exact tensor_train_K_canonical. Qed.
+Print Assumptions C08_tensor_train_result_canonical.
+Example C08_svd_contract_ex : forall (K : Type) (k0 k1 : K) (kadd kmul ksub : K -> K -> K) (kopp : K -> K),
+  ring_theory k0 k1 kadd kmul ksub kopp eq -> forall conj, is_conj kadd kmul conj ->
+  forall n_row n_col (M : nat -> nat -> K) r, r <= Nat.min n_row n_col -> unitary_cols K k0 k1 kadd kmul conj n_row r (kdelta K k0 k1).
+Proof. exact svd_contract_satisfiable. Qed.
+(* tensor_ring (cores in computation order, i.e. starting at `mode`): shapes of the shape model, the first core has exactly the requested ranks, the last
+   core's right rank is the first core's left rank, the first core's mode unfolding has unitary columns, the middle cores are left-unitary *)
+Theorem C08_tensor_ring_result_canonical : forall (K : Type) (k0 k1 : K) (kadd kmul ksub : K -> K -> K) (kopp : K -> K),
+  ring_theory k0 k1 kadd kmul ksub kopp eq -> forall (conj : K -> K) (svdU svdSV : nat -> nat -> (nat -> nat -> K) -> nat -> nat -> nat -> K),
+  (forall n_row n_col M r, r <= Nat.min n_row n_col -> unitary_cols K k0 k1 kadd kmul conj n_row r (svdU n_row n_col M r)) ->
+  forall shape rank X cores, tr_cores_K K svdU svdSV shape rank X = Ok cores ->
+  let d := mkCore K 0 0 0 (fun _ _ _ => k0) in
+  tr_cores shape rank = Ok (map (cshape K) cores) /\ length cores = length shape /\
+  cshape K (hd d cores) = [hd 0 rank; hd 0 shape; nth 1 rank 0] /\ c_r1 K (last cores d) = c_r0 K (hd d cores) /\
+  first_core_unitary K k0 k1 kadd kmul conj (hd d cores) /\
+  (forall k, 1 <= k -> S k < length cores -> left_unitary K k0 k1 kadd kmul conj (nth k cores d)).
+Proof. exact tr_cores_K_canonical. Qed.
+Print Assumptions C08_tensor_ring_result_canonical.
+(* tensor_train_matrix: tensor_train of the tensor with input / output modes merged pairwise, cores split back to (r_k, I_k, O_k, r_k+1) *)
+Theorem C08_tensor_train_matrix_result_canonical : forall (K : Type) (k0 k1 : K) (kadd kmul ksub : K -> K -> K) (kopp : K -> K),
+  ring_theory k0 k1 kadd kmul ksub kopp eq -> forall (conj : K -> K) (svdU svdSV : nat -> nat -> (nat -> nat -> K) -> nat -> nat -> nat -> K),
+  (forall n_row n_col M r, r <= Nat.min n_row n_col -> unitary_cols K k0 k1 kadd kmul conj n_row r (svdU n_row n_col M r)) ->
+  forall tshape spec c X cores, tensor_train_matrix_K K svdU svdSV tshape spec c X = Ok cores ->
+  let n := length tshape / 2 in
+  tensor_train_matrix tshape spec c = Ok (map split_core (combine (map (cshape K) cores) (combine (firstn n tshape) (skipn n tshape)))) /\
+  (forall k, S k < length cores -> left_unitary K k0 k1 kadd kmul conj (nth k cores (mkCore K 0 0 0 (fun _ _ _ => k0)))).
+Proof. exact tensor_train_matrix_K_canonical. Qed.
+Print Assumptions C08_tensor_train_matrix_result_canonical.
 
 (* for factors with unitary columns the projection is a LEFT INVERSE of the reconstruction: a core is recovered from the tensor it
    represents by X x_k U_k^H -- so "core = projection of the data onto the factors" determines the core (every order) *)
